@@ -74,6 +74,10 @@ READ_PLANS = ['full', 'short', 'eof_early', 'overlong', 'none', 'error']
 CONSUMERS = ['drain', 'abort', 'close_only', 'drain_no_close']
 
 
+FOLLOW = [['ok', 'prims'], ['ok', 'echo'], ['ok', 'inners'], ['ok', 'noargs'],
+          ['ok', 'multi'], ['gen', 3], ['wsdl'], ['wsdl'], ['unknown'],
+          ['invalid']]
+
 MULTIPART = ['ok', 'no_cid', 'attach_first', 'bad_charset',
              'nonascii_boundary', 'no_boundary', 'no_root', 'truncated',
              'empty', 'root_only', 'root_only_charset']
@@ -163,6 +167,12 @@ def make_case(verif_seed, i):
         # between the gateway and the application
         'lint': rng.random() < .25,
     }
+    # aftermath: once the (possibly faulted, aborted, refused) request is
+    # over, a clean request goes to the SAME instance and must be answered
+    # as a fresh, identically built instance answers it
+    frng = Streams(seed)['follow']
+    if frng.random() < .3:
+        case['follow'] = frng.choice(FOLLOW)
     return case
 
 
@@ -271,6 +281,10 @@ def _ctl_chars(s):
 
 
 def run_case(case):
+    # spyne's locks are SimLocks here too: a lock left held by a failed
+    # request shows as SelfDeadlock in the next one instead of hanging the run
+    from sim import sched
+    sched.install_seams()
     ws = Streams(case['seed'])['workload']
     uni = Universe(Streams(case['useed'])['universe'])
     in_prot, out_prot = case['in_prot'], case['out_prot']
@@ -316,10 +330,13 @@ def run_case(case):
     wsgi.event_manager.add_listener('wsgi_close',
                    lambda ctx: events.append((stamp(), 'wsgi_close')))
     simfiles = []
+    parking = [True]
     if case.get('files'):
         n, bad = case['files']
 
         def _park(ctx):
+            if not parking[0]:
+                return
             for i in range(n):
                 f = SimFile(i, i == bad, events, stamp)
                 simfiles.append(f)
@@ -389,7 +406,101 @@ def run_case(case):
                 'what': 'wsgiref.validate refuses what the application did '
                         '(%s): %s' % (fn, canon.mask(str(o.exc))[:200])})
             return r
-    return judge(case, uni, req, o, ml, cl, simfiles, handles)
+    r = judge(case, uni, req, o, ml, cl, simfiles, handles)
+    if case.get('follow') and services is None:
+        parking[0] = False
+        _aftermath(case, uni, wsgi, ml, r, o.events, req)
+    return r
+
+
+def _follow_request(case, uni):
+    ctl = uni.ctl
+    ctl.inject.clear()
+    ctl.gen_len = None
+    ctl.bad_return = False
+    frq = build_request(uni, case['in_prot'], list(case['follow']),
+                        Streams(derive(case['seed'], 'follow-req'))['workload'])
+    return frq
+
+
+def _aftermath(case, uni, wsgi, ml, r, ev0, req):
+    """The request of this run is over (served, refused, aborted by the
+    consumer, failed in the stream...).  A clean request to the same instance
+    gets what a fresh instance built the same way answers."""
+    out_prot = case['out_prot']
+    is_wsdl = case['follow'][0] == 'wsdl'
+
+    def send(u, target, log):
+        n0 = u.ctl.n_calls()
+        frq = _follow_request(case, u)
+        o = call_wsgi(target, frq, read_plan=(), content_length='equal',
+                      consumer=('drain',), events=log)
+        return o, u.ctl.n_calls() - n0
+
+    uni2 = Universe(Streams(case['useed'])['universe'])
+    app2 = uni2.make_app(make_protocol(case['in_prot'], case['validator']),
+                         make_protocol(out_prot))
+    wsgi2 = WsgiApplication(app2, chunked=case['chunked'],
+            max_content_length=ml, block_length=case['block_length'])
+    if case['rclass'][0] == 'wsdl' and case['plan_args'][0] % 2:
+        def _edit_wsdl(ctx):
+            if ctx.transport.wsdl is not None:
+                ctx.transport.wsdl = ctx.transport.wsdl.replace(
+                    b'<wsdl:definitions', b'<!-- served through sim.invalid '
+                    b'-->\n<wsdl:definitions', 1)
+        wsgi2.event_manager.add_listener('wsdl', _edit_wsdl)
+    log2 = []
+    app2.event_manager.add_listener('method_context_created',
+                   lambda ctx: log2.append((0, 'ctx_created')))
+    app2.event_manager.add_listener('method_context_closed',
+                   lambda ctx: log2.append((0, 'ctx_closed')))
+    if case['rclass'][0] == 'wsdl':
+        # the document is built once, for the URL of whoever asked first: the
+        # reference instance has seen the same first request (fault-free)
+        call_wsgi(wsgi2, req, read_plan=(), content_length='equal',
+                  consumer=('drain',))
+        del log2[:]
+    ref, ref_calls = send(uni2, wsgi2, log2)
+    log = []
+    # (the listeners of the first request append to its own event list; the
+    # follow-up is counted from where that list stands now)
+    n_before = len(ev0) if ev0 is not None else 0
+    got, got_calls = send(uni, wsgi, ev0 if ev0 is not None else log)
+    evs = (ev0[n_before:] if ev0 is not None else log)
+    r['fired']['follow_up_request'] = 1
+    r['probes']['follow_after_incomplete'] = \
+        1 if not r['summary'].get('complete') else 0
+    a = canon.canon_response(out_prot, ref, is_wsdl)
+    b = canon.canon_response(out_prot, got, is_wsdl)
+    V = r['violations']
+    tag = '%s>%s|out=%s' % (case['rclass'][0], case['follow'][0],
+                'xmlfam' if out_prot in XML_FAMILY else out_prot)
+    if a != b:
+        V.append({'sig': 'A1-aftermath-response|' + tag,
+            'what': 'after a %r request (%s, consumer %s) a clean %r request '
+                    'to the same instance is answered %s; a fresh instance '
+                    'answers %s' % (case['rclass'][:2], case['plan_kind'],
+                    case['consumer'], case['follow'], _short(b), _short(a))})
+    if got_calls != ref_calls:
+        V.append({'sig': 'A2-aftermath-user-calls|' + tag,
+            'what': 'follow-up request ran user code %d times on the used '
+                    'instance, %d times on a fresh one' % (got_calls,
+                                                           ref_calls)})
+    cnt = lambda l, k: len([e for e in l if e[1] == k])
+    for k in ('ctx_created', 'ctx_closed'):
+        if cnt(evs, k) != cnt(log2, k):
+            V.append({'sig': 'A3-aftermath-%s|%s' % (k, tag),
+                'what': 'follow-up request: %s fired %d times on the used '
+                        'instance, %d times on a fresh one' % (k,
+                                            cnt(evs, k), cnt(log2, k))})
+    r['steps'] += len(evs)
+    r['digest'] = digest([r['digest'], b, got_calls,
+                          [list(e[1:]) for e in evs]])
+
+
+def _short(x, n=300):
+    s = repr(x)
+    return s if len(s) <= n else s[:n] + '...'
 
 
 def judge(case, uni, req, o, ml, cl, simfiles=(), handles=()):
@@ -643,7 +754,9 @@ def _result(case, o, V):
                           if isinstance(o.headers, list) else repr(o.headers),
                           canon.mask(o.body) if o.body is not None else None]),
         'summary': {'status': o.status, 'events': len(o.events),
-                    'exc': type(o.exc).__name__ if o.exc else None},
+                    'exc': type(o.exc).__name__ if o.exc else None,
+                    'complete': bool(o.exhausted and o.closed
+                                     and o.exc is None)},
     }
 
 
